@@ -51,13 +51,26 @@ Apply(ev) ==
          IF HasIndex(es, idx) THEN (IF Fresh(es, idx) THEN R(es, idx, "ok") ELSE R(es, idx, "any"))
          ELSE IF Sorted(es) THEN R(es, es, "ok") ELSE R(es, idx, "error")
     \* copy() / dump+load: a new collection, which has an index exactly when this one "has" one; the source is unchanged
+    \* subset over all nodes in id order: rows re-added and sorted, no index; delete_older(t) with t between the times of nodes 2 and 3
+    \* drops the edge below node 3, keeps the row order and - unlike the other wholesale rewrites - leaves the index arrays alone (found by
+    \* replay: the first version of this action dropped the index; the code rewrites the edge table row by row and never touches it); union with a copy of itself under the identity node map adds
+    \* nothing, then sorts and *builds* the index; set_columns with the table's own columns keeps whatever index arrays there are
+    [] ev.op = "subset_all"  -> R(SortedSeqOf(es), NoIdx, "ok")
+    [] ev.op = "delete_older" -> R(SelectSeq(es, LAMBDA t : t # 3), idx, "ok")
+    [] ev.op = "union_self"  -> R(SortedSeqOf(es), SortedSeqOf(es), "ok")
+    [] ev.op = "set_columns_same" -> R(es, idx, "ok")
+    [] ev.op = "deduplicate_sites" -> R(es, idx, "ok")
+    \* compute_mutation_parents insists on an index and on sorted edges (a stale index of the right length: not modelled)
+    [] ev.op = "compute_mutation_parents" ->
+         IF ~HasIndex(es, idx) THEN R(es, idx, "error") ELSE IF Fresh(es, idx) THEN R(es, idx, "ok") ELSE R(es, idx, "any")
     [] ev.op = "copy"        -> R(es, idx, IF HasIndex(es, idx) THEN "with_index" ELSE "without_index")
     [] ev.op = "dump_load"   -> R(es, idx, IF HasIndex(es, idx) THEN "with_index" ELSE "without_index")
 Events ==
     {[op |-> "add_edge", t |-> t] : t \in Tokens \ {es[i] : i \in 1..Len(es)}}
     \cup {[op |-> "truncate", n |-> n] : n \in 0..Len(es)}
     \cup {[op |-> "replace_last", t |-> t] : t \in IF es = <<>> THEN {} ELSE Tokens \ {es[i] : i \in 1..(Len(es) - 1)}}
-    \cup {[op |-> o] : o \in {"clear_edges", "drop_index", "build_index", "sort", "clear", "simplify", "tree_sequence", "copy", "dump_load"}}
+    \cup {[op |-> o] : o \in {"clear_edges", "drop_index", "build_index", "sort", "clear", "simplify", "tree_sequence", "copy", "dump_load",
+                                "subset_all", "delete_older", "union_self", "set_columns_same", "deduplicate_sites", "compute_mutation_parents"}}
 Init == es = <<>> /\ idx = NoIdx /\ hist = <<>>
 Step(ev) == LET r == Apply(ev) IN
   /\ es' = r.es /\ idx' = r.idx
@@ -72,8 +85,8 @@ TypeOK == /\ \A i, j \in 1..Len(es) : i # j => es[i] # es[j]
 \* an index is only ever built over sorted edges
 IndexOverSorted == idx = NoIdx \/ Sorted(idx)
 \* the operations that rewrite the edge table wholesale leave no index behind; the ones that build one leave a fresh one
-WholesaleDropsIndex == [][\A ev \in Events : (Step(ev) /\ ev.op \in {"sort", "clear", "simplify"} /\ Apply(ev).ok = "ok") => idx' = NoIdx]_vars
-BuildIsFresh == [][\A ev \in Events : (Step(ev) /\ ev.op \in {"build_index"} /\ Apply(ev).ok = "ok") => (HasIndex(es', idx') /\ Fresh(es', idx'))]_vars
+WholesaleDropsIndex == [][\A ev \in Events : (Step(ev) /\ ev.op \in {"sort", "clear", "simplify", "subset_all"} /\ Apply(ev).ok = "ok") => idx' = NoIdx]_vars
+BuildIsFresh == [][\A ev \in Events : (Step(ev) /\ ev.op \in {"build_index", "union_self"} /\ Apply(ev).ok = "ok") => (HasIndex(es', idx') /\ Fresh(es', idx'))]_vars
 \* the blind spot, stated so that TLC shows it is reachable: has_index can hold with a stale index
 NeverStale == ~(HasIndex(es, idx) /\ ~Fresh(es, idx))
 EmitHist == ~Emit \/ Len(hist) < MaxSteps \/ PrintT(<<"H", ToJson(hist)>>)
